@@ -3,7 +3,8 @@
 Spec: PlansMC.tla on top of LinearRE/ModelLib: targets taken from an ordinary simulation, the same shocks endogenized (anticipated or
 unanticipated mode, prior input 0 or 1/2); the spec solves for the instruments through the exact impact matrix and TLC checks
 Inv_SwapRecovers (they are the original shocks) and Inv_PlannedPathHolds. Binding: every non-singular scenario is run through
-SimulationPlan + simulate(plan=...) and compared: exogenized points hit, shocks recovered, whole path, untouched shocks unchanged.
+SimulationPlan + simulate(plan=...) under first_order and (level mode) stacked_time and compared: exogenized points hit, shocks recovered,
+whole path, untouched shocks unchanged.  Known finding: stacked_time ignores unanticipated targets dated after their instrument.
 """
 import os, math
 import numpy as np
@@ -20,6 +21,9 @@ def check(chk, sc, out, method):
     payload = {"kind": "plan", "sc": _plain(sc), "pairs": _plain(out["pairs"]), "src": list(out["src"])}
     mode = sc["mode"]
     tag = "plan:%s:%s:%s" % (method, mode, sc["id"])
+    if method == "stacked_time" and mode == "unant" and any(p[1] != p[3] for p in out["pairs"]):
+        # known finding: the stacked-time simulator honours an unanticipated target only in the first period of a frame
+        tag = "plan:stacked_time:unant:instrument-date-differs-from-target-date"
     desc = "model %s %s plan %s (mode %s, prior %s, deviation=%s, init %s, u=%s, a=%s)" % (
         sc["id"], method, _plain(out["pairs"]), mode, _plain(sc["prior"]), sc["dev"], _plain(sc["init"]), sorted(sc["u"]), sorted(sc["a"]))
     dev = bool(sc["dev"])
@@ -51,7 +55,7 @@ def check(chk, sc, out, method):
             kw["solver_settings"] = {"step_tolerance": 1e6}
         sim = quiet(m.simulate, db, span, **kw)
     except Exception as ex:
-        chk.mismatch(tag + ":raised:" + type(ex).__name__, desc + ": raised %r" % (ex,), payload)
+        chk.mismatch(tag if tag.endswith("target-date") else tag + ":raised:" + type(ex).__name__, desc + ": raised %r" % (ex,), payload)
         return
     # exogenized points hit, whole path recovered
     for j, n in enumerate(out["vars"]):
@@ -60,7 +64,7 @@ def check(chk, sc, out, method):
             g = state_of(n, logv, float(sim[n].get_data(per(k))[0, 0]))
             if not abs(g - e) <= 1e-8 * max(1.0, abs(e)):
                 is_target = any(p[0] == j + 1 and p[1] == k for p in out["pairs"])
-                chk.mismatch(tag + (":target" if is_target else ":path"), desc + ": %s in period %d is %r, %s %r" % (
+                chk.mismatch(tag if tag.endswith("target-date") else tag + (":target" if is_target else ":path"), desc + ": %s in period %d is %r, %s %r" % (
                     n, k, g, "exogenized to" if is_target else "path of the ordinary simulation", e), payload)
                 return
     # shocks: instruments recovered, all others equal to their inputs
@@ -78,13 +82,13 @@ def check(chk, sc, out, method):
                     what = "shock %s in period %d (not endogenized) is %r, input %r" % (name, k, g, e)
                     fp = ":other-shocks"
                 if not abs(g - e) <= 1e-8 * max(1.0, abs(e)):
-                    chk.mismatch(tag + fp, desc + ": " + what, payload)
+                    chk.mismatch(tag if tag.endswith("target-date") else tag + fp, desc + ": " + what, payload)
                     return
 
 
 def run(chk):
     dump = chk.scratch.file("plans.dump")
-    r = tlc.must_pass(tlc.run("PlansMC", "PlansMC.cfg", chk.scratch, dump=dump, timeout=1800), "PlansMC")
+    r = tlc.must_pass(tlc.run("PlansMC", "PlansMC.thorough.cfg" if chk.tier == "thorough" else "PlansMC.cfg", chk.scratch, dump=dump, timeout=7200), "PlansMC")
     chk.add_tlc(r, "PlansMC")
     n = skipped = 0
     for st in tlaval.parse_dump(dump, want=lambda b: "fin = TRUE" in b):
@@ -96,6 +100,9 @@ def run(chk):
             raise MachineryError("PlansMC: swap law false in dump")
         check(chk, sc, out, "first_order")
         n += 1
+        if not sc["dev"]:                       # stacked time has no deviation mode
+            check(chk, sc, out, "stacked_time")
+            n += 1
         if n in (11, 900):
             chk.sample({"scenario": _plain(sc), "pairs": _plain(out["pairs"]), "spec_recovered_shocks": _plain(out["truth"]),
                         "spec_path": {str(k): _plain(v) for k, v in sorted(dict(out["pathx"]).items())}})
@@ -106,8 +113,8 @@ def run(chk):
     chk.exhaustive = True
     chk.rule = ("library models L1, L2, L3, L9 x level/deviation x 2 initial windows x 3 unanticipated x 3 anticipated base profiles x anticipated/"
                 "unanticipated mode x 5-7 (target, instrument) patterns (same date, instrument before/after the target, two pairs) x prior input 0 or 1/2 "
-                "of the endogenized shock; singular patterns excluded by the spec; method first_order; a case is one planned simulation")
-    chk.assumptions = ["stacked_time with plans is exercised under C06's machinery only where it converges; here the first-order method decides the property",
+                "of the endogenized shock; singular patterns excluded by the spec; methods first_order and (level mode) stacked_time; a case is one planned simulation")
+    chk.assumptions = ["stacked_time has no deviation mode: level-mode scenarios only; solver_settings step_tolerance disabled as in C06",
                        "models and parameter values are those of the library"]
 
 
